@@ -30,8 +30,9 @@ Safe(x) == x.out \notin {"PANIC", "HANG"}
 
 Ty == TypeIx(e.code)
 Pick == PickOf(Ty, e.tags)
-MustAccept == Must(Ty, Pick, e.ctx)
-Bytes == BytePreserved(e.code) /\ ~HasPtr(Prims(Ty, Pick))
+IsTlv == e.kind = "tlv"
+MustAccept == IF IsTlv THEN TlvMust(e.tlv.carrier, e.tlv.items, e.tlv.stray, e.ctx) ELSE Must(Ty, Pick, e.ctx)
+Bytes == BytePreserved(e.code) /\ (IsTlv \/ ~HasPtr(Prims(Ty, Pick)))
 
 Problems ==
     (IF ~(Safe(e.msg) /\ Safe(e.req) /\ Safe(e.rec) /\ Safe(e.rdata)) THEN {"panic-or-hang"} ELSE {})
